@@ -264,6 +264,11 @@ class SigmaExtendedCorrelationCondition:
                 f"Failed to parse extended condition expression: {str(e)}",
                 source=self.source,
             )
+        except RecursionError:
+            raise sigma_exceptions.SigmaCorrelationConditionError(
+                "Extended condition expression is nested too deeply to be parsed",
+                source=self.source,
+            )
 
     @classmethod
     def parse(cls, expression: str) -> CorrelationConditionItem | SigmaRuleReference:
